@@ -106,6 +106,15 @@ fn decode_host(host: &str) -> Option<Cow<str>> {
     }
 }
 
+/// Whether `rp_id` is equal to `host` or is a suffix of it that starts right after a `.`,
+/// i.e. at the boundary of a domain label.
+fn is_label_suffix(host: &str, rp_id: &str) -> bool {
+    match host.strip_suffix(rp_id) {
+        Some(prefix) => prefix.is_empty() || prefix.ends_with('.'),
+        None => false,
+    }
+}
+
 /// The origin of a WebAuthn request.
 pub enum Origin<'a> {
     /// A Url, meant for a request in the web browser.
@@ -533,7 +542,8 @@ where
         origin: &'a Url,
         rp_id: Option<&'a str>,
     ) -> Result<&'a str, WebauthnError> {
-        let mut effective_domain = origin.domain().ok_or(WebauthnError::OriginMissingDomain)?;
+        let host = origin.domain().ok_or(WebauthnError::OriginMissingDomain)?;
+        let mut effective_domain = host;
 
         if let Some(rp_id) = rp_id {
             if !effective_domain.ends_with(rp_id) {
@@ -544,7 +554,18 @@ where
         }
 
         // Guard against local host and assert rp_id is not part of the public suffix list
-        if let ControlFlow::Break(res) = self.assert_valid_rp_id(effective_domain) {
+        let validity = self.assert_valid_rp_id(effective_domain);
+        if let ControlFlow::Break(Err(err)) = validity {
+            return Err(err);
+        }
+
+        // The RP ID must be the host itself or a parent domain of it: a suffix which does not
+        // start at a label boundary (`evilexample.com` for `example.com`) is another domain.
+        if !is_label_suffix(host, effective_domain) {
+            return Err(WebauthnError::OriginRpMissmatch);
+        }
+
+        if let ControlFlow::Break(res) = validity {
             return res;
         }
 
@@ -604,11 +625,12 @@ where
         target_link: &'a UnverifiedAssetLink,
         rp_id: Option<&'a str>,
     ) -> Result<&'a str, WebauthnError> {
-        let mut effective_rp_id = target_link.host();
+        let host = target_link.host();
+        let mut effective_rp_id = host;
 
         if let Some(rp_id) = rp_id {
             // subset from assert_web_rp_id
-            if !effective_rp_id.ends_with(rp_id) {
+            if !is_label_suffix(host, rp_id) {
                 return Err(WebauthnError::OriginRpMissmatch);
             }
             effective_rp_id = rp_id;
